@@ -9,7 +9,7 @@ rsync -a --exclude target --exclude .git /repo/ $S/
 cd $S || exit 9
 if ! patch -p1 --dry-run -s < "$P" >/dev/null 2>&1; then echo "SEED $P: does not apply"; rm -rf $S; exit 8; fi
 patch -p1 -s < "$P"
-cd /verif && VERIF_REPO=$S ./check $PROP --tier $TIER > /tmp/seed_run_$$.out 2>&1; rc=$?
+cd /verif && VERIF_EVIDENCE_DIR=$S/.evidence VERIF_REPLAY_DIR=/tmp/seed_replays VERIF_REPO=$S ./check $PROP --tier $TIER > /tmp/seed_run_$$.out 2>&1; rc=$?
 rm -rf $S
 echo "SEED $(basename $(dirname $P))/$(basename $P) prop=$PROP exit=$rc"
 grep -E "VIOLATION|KNOWN-FINDING|INCONCLUSIVE|FAILED obligation|inconclusive|OK:" /tmp/seed_run_$$.out | cut -c1-300 | head -8
